@@ -417,7 +417,11 @@ func inlineRounds(root string, env []string, overlay map[string][]byte, note *In
 		progress := false
 		for _, pk := range pkgs {
 			if len(pk.Errors) > 0 || pk.Types == nil || pk.TypesInfo == nil {
-				note.Skipped = append(note.Skipped, pk.PkgPath+": not type-checked, helpers left alone")
+				why := ""
+				if len(pk.Errors) > 0 {
+					why = " (" + strings.Join(strings.Fields(pk.Errors[0].Error()), " ") + ")"
+				}
+				note.Skipped = append(note.Skipped, pk.PkgPath+": not type-checked, helpers left alone"+why)
 				continue
 			}
 			rel, _ := filepath.Rel(root, pkgDir(pk))
@@ -1589,7 +1593,7 @@ func (in *inliner) modelFor(call *ast.CallExpr, file *ast.File) (string, string)
 					args = append(args, call.Args[1])
 				}
 				call.Args = args
-				return name, fmt.Sprintf("func %s(%s) %s {\n\tfor mdl_i, mdl_e := range s {\n\t\t_ = mdl_i\n\t\tif %s(%s) {\n\t\t\treturn %s\n\t\t}\n\t}\n\treturn %s\n}\n\n%s",
+				return name, fmt.Sprintf("func %s(%s) %s {\n\tfor mdl_i, mdl_e := range s {\n\t\t_ = mdl_i\n\t\t_ = mdl_e\n\t\tif %s(%s) {\n\t\t\treturn %s\n\t\t}\n\t}\n\treturn %s\n}\n\n%s",
 					name, strings.Join(params, ", "), res, pred, predArgs, strings.Replace(hit, "i", "mdl_i", 1), miss, predSrc)
 			}
 		}
